@@ -9,6 +9,7 @@ CONSTANTS
   Deltas = {1, 2, 3, 4, 5, 6, 7, 8, 9, 10}
   SameModes = {TRUE, FALSE}
   MaxTouched = 2
+  GenMaxMixed = 2
   GenWithRepeat = FALSE
   AsCoded = TRUE
 INVARIANTS TypeOK Completeness SoundNonCancelling SingleFaultDetected BatchSplitIndependent OnlyGapIsCancelling
